@@ -1900,6 +1900,8 @@ pub fn analyze(file: &File) -> Result<File, Diagnostics> {
     let scope = Scope::new(file)?;
     let file = check_decl_identifiers(file, &scope)?;
     let scope = Scope::new(&file).unwrap();
+    #[cfg(feature = "verif-sim")]
+    crate::verif_sim::yield_point("analyze:identifiers");
     check_field_identifiers(&file)?;
     check_enum_declarations(&file)?;
     check_size_fields(&file)?;
@@ -1910,11 +1912,17 @@ pub fn analyze(file: &File) -> Result<File, Diagnostics> {
     check_checksum_fields(&file, &scope)?;
     check_optional_fields(&file)?;
     check_group_constraints(&file, &scope)?;
+    #[cfg(feature = "verif-sim")]
+    crate::verif_sim::yield_point("analyze:checks");
     let mut file = inline_groups(&file)?;
     desugar_flags(&mut file);
+    #[cfg(feature = "verif-sim")]
+    crate::verif_sim::yield_point("analyze:desugared");
     let scope = Scope::new(&file)?;
     check_decl_constraints(&file, &scope)?;
     let schema = Schema::new(&file);
+    #[cfg(feature = "verif-sim")]
+    crate::verif_sim::yield_point("analyze:schema");
     check_field_offsets(&file, &scope, &schema)?;
     check_decl_sizes(&file, &schema)?;
     Ok(file)
